@@ -124,6 +124,7 @@ where
     F::Node: Send + Sync,
     F::Graph: Send + Sync,
 {
+    crate::keys::set_style(crate::keys::style_from(sc.hash_seed));
     hashseam::set_seed(sc.hash_seed);
     let world = World::<F>::new(&sc.prios, sc.shared_container);
     world.seed_edges(&sc.initial);
@@ -161,6 +162,7 @@ where
     F::Node: Send + Sync,
     F::Graph: Send + Sync,
 {
+    crate::keys::set_style(crate::keys::style_from(sc.hash_seed));
     hashseam::set_seed(sc.hash_seed);
     let world = World::<F>::new(&sc.prios, sc.shared_container);
     world.seed_edges(&sc.initial);
@@ -858,7 +860,41 @@ impl Engine for Conc {
                 tasks.push(w);
             }
         }
-        for _ in 0..(if template || template2 { 0 } else { nt }) {
+        // hub template: one node with 65-160 neighbours is isolated while other tasks ask about, add
+        // and remove single edges of it - an `isolate` that is not one atomic step once a list is
+        // long (batches, chunks, a lock released and re-taken) shows as answers no order explains
+        let template3 = !template && !template2 && rng.chance(1, 40);
+        let mut prios = prios;
+        if template3 {
+            let spokes = rng.range(65, if tier == Tier::Quick { 140 } else { 300 });
+            prios = (0..=spokes).map(|_| rng.below(3) as u32).collect();
+            m = Model::new(directed, spokes + 1);
+            initial.clear();
+            let out_only = rng.coin();
+            for x in 1..=spokes {
+                next_edge += 1;
+                let (a, b) = if out_only || rng.coin() { (0, x) } else { (x, 0) };
+                initial.push((a, b, next_edge));
+                m.edges.push(crate::model::MEdge { val: next_edge, u: a, v: b });
+            }
+            tasks.push(vec![Op::Isolate { u: 0, h: Prov::Own }]);
+            for _ in 1..nt {
+                let mut w = Vec::new();
+                for _ in 0..rng.range(2, 3) {
+                    let x = rng.range(1, spokes);
+                    next_edge += 1;
+                    w.push(match rng.below(6) {
+                        0 | 1 => Op::TryConnect { u: 0, v: x, e: next_edge, h: Prov::Own },
+                        2 => Op::TryConnect { u: x, v: 0, e: next_edge, h: Prov::Own },
+                        3 => Op::Disconnect { u: 0, k: x, h: Prov::Own },
+                        4 => Op::Disconnect { u: x, k: 0, h: Prov::Own },
+                        _ => Op::IsConnected { u: 0, k: x },
+                    });
+                }
+                tasks.push(w);
+            }
+        }
+        for _ in 0..(if template || template2 || template3 { 0 } else { nt }) {
             let k = rng.range(1, max_ops);
             let mut script = Vec::new();
             for _ in 0..k {
@@ -886,6 +922,7 @@ impl Engine for Conc {
         let tiny = tasks.len() <= 3 && tasks.iter().map(|t| t.len()).sum::<usize>() <= 3;
         let kind = match rng.below(10) {
             _ if tiny && rng.chance(1, if tier == Tier::Quick { 150 } else { 60 }) => PolicyKind::Enumerate,
+            _ if template3 => if rng.coin() { PolicyKind::Uniform } else { PolicyKind::Sticky { num: 50 } },
             0..=3 => PolicyKind::Uniform,
             4..=5 => PolicyKind::Pct { d: rng.range(1, 3) as u32 },
             6..=8 => PolicyKind::Sticky { num: *rng.pick(&[5u32, 10, 25, 50]) },
